@@ -36,8 +36,7 @@ ASSUMPTIONS = ["PY_START counts are deterministic for a given input", "Recursion
                "(a loaded machine inflates measured CPU time by up to 25x in this sandbox)"]
 SHARD_TIMEOUT = {"quick": 240, "thorough": 900}
 RATIO = 2.6
-# known-finding attribution: loop iterations inside these functions are also counted separately
-KF_FUNCS = {"CParser._type_modify_decl": "K46", "CParser._is_type_in_scope": "K47"}
+# (known-finding attribution is by trigger + hottest-loop twin, see run_shard; no function names)
 
 
 def rep(unit, pre="", suf=""):
@@ -305,17 +304,17 @@ def _nest_depth(text, op, cl):
     return best
 
 
-def _kf_trigger(by, fam, k):
+def _kf_trigger(fam, k):
     """The open findings K46 / K47 are about ONE declarator with many derivations and about brace NESTING: the input itself
-    must have a declarator with >= k/2 derivations, resp. a brace depth >= k/2.  Families that repeat a bounded unit k
-    times never qualify, whatever function the excess is spent in."""
-    top = max(by, key=by.get)
+    must have a declarator with >= k/2 derivations (K46), resp. a brace depth >= k/2 (K47).  Families that repeat a bounded
+    unit k times never qualify."""
+    import re
     text = fam(k)
-    if KF_FUNCS[top] == "K46":
-        # one declarator with at least k/2 derivations ('*', '[', '(' between two ';' / braces)
-        import re
-        return max(sum(seg.count(c) for c in "*[(") for seg in re.split(r"[;{}]", text)) >= k // 2
-    return _nest_depth(text, "{", "}") >= k // 2
+    if _nest_depth(text, "{", "}") >= k // 2:
+        return "K47"
+    if max(sum(seg.count(c) for c in "*[(") for seg in re.split(r"[;{}]", text)) >= k // 2:
+        return "K46"
+    return None
 
 
 def judge_series(name, series, case_extra=None):
@@ -410,15 +409,14 @@ def run_shard(spec):
 
     if spec["mode"] in ("families", "files"):
         steps = monitors.StepMonitor(work=True)
-        steps.attrib = set(KF_FUNCS)
+        steps.attrib = True
         steps.start()
         try:
             if spec["mode"] == "families":
                 for name in spec["families"]:
                     fam = FAMILIES[name]
                     series = []
-                    twin = []
-                    by = {}
+                    loops = []      # per measurement: {code object: loop iterations}
                     k = 8
                     while k <= spec["kmax"]:
                         text = fam(k)
@@ -426,10 +424,7 @@ def run_shard(spec):
                         n, o = measure(steps, text)
                         tag = o[0]
                         series.append((k, len(text), n, tag))
-                        twin.append((k, len(text), n - steps.attributed,
-                                     "ok" if tag == "budget" and n - steps.attributed <= (20000 + 400 * len(text)) // 2 else tag))
-                        for fn_, c_ in steps.attributed_by.items():
-                            by[fn_] = by.get(fn_, 0) + c_
+                        loops.append(dict(steps.attributed_by))
                         cnt["measurements"] += 1
                         res["evaluations"] += 1
                         res["nontrivial_distinct"] += 1
@@ -442,16 +437,25 @@ def run_shard(spec):
                     cnt["families"] += 1
                     cnt["table"][name] = [(a, c) for a, b, c, d in series]
                     vs = judge_series(name, series)
-                    if vs and sum(a[2] - b[2] for a, b in zip(series, twin)) > 0 and not judge_series(name, twin) \
-                            and _kf_trigger(by, fam, series[-1][0]):
-                        # K46 / K47: the whole excess consists of loop iterations inside CParser._type_modify_decl (the walk
-                        # to the tail of the modifier chain, repeated per declarator level) or CParser._is_type_in_scope (the
-                        # walk over all enclosing scopes, repeated per identifier); without them the series is linear
-                        top = max(by, key=by.get)
-                        for v in vs:
-                            v["kf"] = KF_FUNCS[top]
-                            v["detail"]["loop_iterations_attributed"] = by
-                            v["detail"]["steps_without_attributed_loops"] = [(a, b, c) for a, b, c, _ in twin]
+                    kf = _kf_trigger(fam, series[-1][0]) if vs else None
+                    if vs and kf and loops and loops[-1]:
+                        # K46 / K47 (quadratic walk per declarator derivation / per identifier in nested scopes): the input
+                        # really nests (trigger), and with the iterations of the SINGLE hottest loop of the parse removed
+                        # the series is within the linear rules (neutralised twin).  Nothing is keyed to a function name,
+                        # so a refactoring that moves the loop keeps the attribution, while any additional super-linear
+                        # term - in another loop, or in function calls - stays in the twin and is reported.
+                        hot = max(loops[-1], key=loops[-1].get)
+                        twin = []
+                        for (k_, ln, n, tag), lp in zip(series, loops):
+                            m = n - lp.get(hot, 0)
+                            twin.append((k_, ln, m, "ok" if tag == "budget" and m <= (20000 + 400 * ln) // 2 else tag))
+                        kmax_ = series[-1][0]
+                        # ... and that loop is at most quadratic with the constant seen today (<= 2.0 k^2; bound 6 k^2)
+                        if not judge_series(name, twin) and loops[-1][hot] <= 6 * kmax_ * kmax_:
+                            for v in vs:
+                                v["kf"] = kf
+                                v["detail"]["hottest_loop"] = f"{hot.co_qualname} ({os.path.basename(hot.co_filename)}:{hot.co_firstlineno})"
+                                v["detail"]["steps_without_hottest_loop"] = [(a, b, c) for a, b, c, _ in twin]
                     if vs:
                         res["violations"] += vs
                 res["samples"].append({"family": spec["families"][0], "text_at_k8": FAMILIES[spec["families"][0]](8)[:200]})
